@@ -11,7 +11,7 @@ EXTENDS Cors, Json
 CONSTANTS NApps,      \* number of applications (app k >= 2 is mounted once, inside an app with a smaller index)
           MaxRoutes,  \* route items per application
           MaxDepth,   \* segments per route; mount prefixes have 0..MaxDepth segments
-          MSETS,      \* "one" | "small" | "full": family of method subsets a route item may carry
+          MSETS,      \* "one" | "small" | "mid" | "full": family of method subsets a route item may carry
           PSIB,       \* TRUE: allow a mount that puts a second param child next to an existing one (named deviation)
           NPOL,       \* policies per finished application (rotating through PolicySeq); 0 = every policy
           RICHPOL,    \* FALSE: the 2^5 policies; TRUE: more origins, list shapes and max-age values
@@ -24,6 +24,7 @@ NParams(r) == Cardinality({i \in DOMAIN r : r[i].k = "P"})
 MethodSets ==
   CASE MSETS = "one"   -> {<<"GET">>, <<"POST">>}
     [] MSETS = "small" -> {<<"GET">>, <<"POST">>, <<"GET", "POST">>, <<"PUT", "DELETE">>, <<"GET", "PUT">>}
+    [] MSETS = "mid"   -> {<<"GET">>, <<"POST">>, <<"PUT">>, <<"DELETE">>, <<"GET", "POST">>, <<"PUT", "DELETE">>, <<"GET", "PUT">>, <<"GET", "PUT", "POST", "DELETE">>}
     [] MSETS = "full"  -> {SelectSeq(<<"GET", "PUT", "POST", "DELETE">>, LAMBDA m : m \in S) : S \in (SUBSET {"GET", "PUT", "POST", "DELETE"}) \ {{}}}
 
 \* ------------------------------------------------------------------------------------------ policies
